@@ -85,8 +85,8 @@ impl BodyWriter {
 
                 if input.is_empty() {
                     if !self.ended {
-                        self.finish(w);
-                        self.ended = true;
+                        // Only finished once the terminator is on the wire.
+                        self.ended = self.finish(w);
                     }
                 } else {
                     // The chunk size might be smaller than the entire input, in which case
